@@ -1649,6 +1649,8 @@ package connect
 //@   ensures old(cc.receiveErr) != nil ==> err == old(cc.receiveErr) && cc.receiveErr == old(cc.receiveErr) && !called("(*grpcClientConn).receive", 1)   // label: after-the-end-(or-a-failure)-the-same-error-is-returned-and-the-trailers-are-not-merged-again   // tags: C11, C05, C04
 //@   ensures old(cc.receiveErr) == nil ==> err == callres("(*grpcClientConn).receive", 1) && cc.receiveErr == err   // label: the-first-error-is-latched   // tags: C11, C04
 //@   assert@call((*grpcClientConn).receive#1): arg0 == cc && arg1 == msg
+// Whether the response carried a message is written by receive alone (scan).
+//@ storedonlyin grpcClientConn.receivedMessage (*grpcClientConn).receive
 //@ func (*grpcClientConn).receive(cc, msg) err
 //@   tags C04, C06, C03, C11, C15
 //@   requires cc != nil && cc.duplexCall != nil && cc.duplexCall.requestBodyReader != nil && cc.responseTrailer != nil && cc.responseHeader != nil && cc.bufferPool != nil && cc.protobuf != nil && cc.readTrailers != nil
@@ -1659,7 +1661,8 @@ package connect
 //@   assert@call(wrapIfUncoded#1): arg0 == callres("field:grpcClientConn.readTrailers", 1, 1)   // label: the-reason-is-the-drain's-error   // tags: C15
 //@   assigns everything
 //@   ensures callres("(*grpcUnmarshaler).Unmarshal", 1) == nil ==> err == nil                          // label: a-decoded-message-is-delivered
-//@   ensures err != nil && Is(err, io.EOF) ==> (called("grpcErrorFromTrailer", 1) && (callres("grpcErrorFromTrailer", 1) == nil || err == callres("grpcErrorFromTrailer", 1))) || callres("(http.Header).Get", 1) != ""   // label: clean-end-only-with-grpc-status-in-trailers-or-headers
+//@   ensures callres("(*grpcUnmarshaler).Unmarshal", 1) == nil ==> cc.receivedMessage   // label: a-delivered-message-is-remembered   // tags: C04
+//@   ensures err != nil && Is(err, io.EOF) ==> (called("grpcErrorFromTrailer", 1) && (callres("grpcErrorFromTrailer", 1) == nil || err == callres("grpcErrorFromTrailer", 1))) || (!old(cc.receivedMessage) && callres("(http.Header).Get", 1) != "")   // label: clean-end-only-with-grpc-status-in-the-trailers-or-for-a-response-without-messages-in-the-headers
 //@   ensures err != nil ==> coded(err)                                                                  // label: errors-are-coded
 
 // ---------------------------------------------------------------------------
